@@ -117,9 +117,10 @@ package jsonapi
 //@ spec incOK(d *Document) = forall k int :: 0 <= k && k < len(d.Included) ==> d.Included[k] != nil
 
 //@ func MarshalDocument$1
-//@ props C03
+//@ props C03 C11
 //@ requires doc: doc != nil && *doc != nil && incOK(*doc)
 //@ requires idx: 0 <= i && i < len((*doc).Included) && 0 <= j && j < len((*doc).Included)
+//@ ensures less: result == (str(R_get($rh, (*doc).Included[i], "id")) < str(R_get($rh, (*doc).Included[j], "id")))
 
 //@ func MarshalDocument
 //@ flag absolute-quantifiers
@@ -160,3 +161,6 @@ package jsonapi
 //@ loop 0 invariant not-found: forall m int :: 0 <= m && m < i ==> rkey(C_at($rh, col, m)) != key
 //@ loop 1 invariant frame: d.Data == pre(d.Data) && d.Included == pre(d.Included)
 //@ loop 1 invariant not-found: forall m int :: 0 <= m && m <= $idx ==> rkey(d.Included[m]) != key
+
+//@ func MarshalDocument+
+//@ assert after Slice#0 included-sorted: forall a int, b int :: 0 <= a && a < b && b < len(doc.Included) ==> !(str(R_get($rh, doc.Included[b], "id")) < str(R_get($rh, doc.Included[a], "id")))
